@@ -1,0 +1,41 @@
+//go:build verif
+
+package goat
+
+import (
+	"context"
+	"fmt"
+
+	"google.golang.org/grpc"
+
+	"github.com/avos-io/goat/gen/goatorepo"
+)
+
+// Accessors for the external verification harness (build tag "verif" only).
+
+// VerifUnaryInterceptor returns the unary interceptor installed by the options.
+func (s *Server) VerifUnaryInterceptor() grpc.UnaryServerInterceptor { return s.unaryInterceptor }
+
+// VerifStreamInterceptor returns the stream interceptor installed by the options.
+func (s *Server) VerifStreamInterceptor() grpc.StreamServerInterceptor { return s.streamInterceptor }
+
+// VerifProcessUnaryRpc runs processUnaryRpc on one request envelope for a
+// registered unary method, on a connection handler without a transport, and
+// returns the reply envelope.
+func (s *Server) VerifProcessUnaryRpc(ctx context.Context, rpc *goatorepo.Rpc) (*goatorepo.Rpc, error) {
+	service, method, err := parseRawMethod(rpc.GetHeader().GetMethod())
+	if err != nil {
+		return nil, err
+	}
+	si, ok := s.services[service]
+	if !ok {
+		return nil, fmt.Errorf("unknown service %s", service)
+	}
+	md, ok := si.methods[method]
+	if !ok {
+		return nil, fmt.Errorf("unknown method %s", method)
+	}
+	h := newHandler(s.ctx, s, nil)
+	defer h.cancel(nil)
+	return h.processUnaryRpc(ctx, si, md, rpc), nil
+}
